@@ -240,6 +240,28 @@ async fn main() {
         let update: Option<(usize, Incoming)> = if nroles > 0 && !dup_name && r.chance(1, 2) {
             Some((r.below(nroles as u64) as usize, match r.below(4) { 0 => Incoming::UnderSigned, 1 => Incoming::WrongKeys, 2 => Incoming::Older, _ => Incoming::Genuine }))
         } else { None };
+        // edits of the top-level targets of the reloaded repository: replace a target by other content,
+        // remove it, add it (back); 0 = replace, 1 = remove, 2 = add with the original content
+        let mut edits: Vec<(u8, usize)> = Vec::new();
+        if nroles > 0 && !top_targets.is_empty() && r.chance(2, 3) {
+            if r.chance(1, 3) {
+                let ti = *r.pick(&top_targets);
+                edits.push((0, ti));
+                edits.push((1, ti));
+            }
+            for _ in 0..r.range(0, 3) {
+                edits.push((r.below(3) as u8, *r.pick(&top_targets)));
+            }
+        }
+        let alt_contents: Vec<Vec<u8>> = contents.iter().map(|c| { let mut x = c.clone(); x.extend_from_slice(b"!replaced"); x }).collect();
+        let alt_input = w.join("input-alt");
+        for (nm, c) in names.iter().zip(alt_contents.iter()) {
+            let p = alt_input.join(nm);
+            std::fs::create_dir_all(p.parent().unwrap()).unwrap();
+            std::fs::write(&p, c).unwrap();
+        }
+        // which content a top-level name ends with (None = removed); used only to publish the right file
+        let mut top_state: HashMap<usize, Option<bool>> = top_targets.iter().map(|t| (*t, Some(false))).collect();
         let owner_short = r.chance(1, 6);      // the owner signs with one key too few
         let missing_field = if r.chance(1, 10) { Some(r.below(3)) } else { None };
         let link = r.chance(1, 2);
@@ -300,6 +322,24 @@ async fn main() {
                   .targets_expires(exp(expire_days[0])).map_err(|e| err_class(&e))?
                   .snapshot_version(NonZeroU64::new(versions[1] + 1).unwrap()).snapshot_expires(exp(expire_days[1]))
                   .timestamp_version(NonZeroU64::new(versions[2] + 1).unwrap()).timestamp_expires(exp(expire_days[2]));
+                for (kind, ti) in &edits {
+                    match kind {
+                        0 => {
+                            let t = Target::from_path(alt_input.join(&names[*ti])).await.map_err(|e| format!("from_path: {e}"))?;
+                            ed.add_target(names[*ti].as_str(), t).map_err(|e| err_class(&e))?;
+                            top_state.insert(*ti, Some(true));
+                        }
+                        1 => {
+                            ed.remove_target(&tough::TargetName::new(names[*ti].clone()).unwrap()).map_err(|e| err_class(&e))?;
+                            top_state.insert(*ti, None);
+                        }
+                        _ => {
+                            let t = Target::from_path(target_of(*ti)).await.map_err(|e| format!("from_path: {e}"))?;
+                            ed.add_target(names[*ti].as_str(), t).map_err(|e| err_class(&e))?;
+                            top_state.insert(*ti, Some(false));
+                        }
+                    }
+                }
                 // which role the editor currently edits (None = top-level targets)
                 let mut current: Option<usize> = None;
                 for (ri, spec) in roles.iter().enumerate() {
@@ -389,6 +429,9 @@ async fn main() {
             "roles": intended_roles, "update": update.map(|(ri, k)| json!({"role": ri, "kind": format!("{k:?}")})), "owner_short": owner_short,
             "missing_field": missing_field, "versions": versions, "link": link,
             "role_file_stems": role_names.iter().map(|n| tough_encode(n)).collect::<Vec<_>>(),
+            "edits": edits.iter().map(|(k, t)| json!([k, t])).collect::<Vec<_>>(),
+            "alt_lengths": alt_contents.iter().map(|c| c.len()).collect::<Vec<_>>(),
+            "alt_digests": alt_contents.iter().map(|c| hex::encode(sha256(c))).collect::<Vec<_>>(),
             "needs_escape": names.iter().map(|n| url::Url::parse("file:///t/").unwrap().join(n).map(|u| u.path() != format!("/t/{n}")).unwrap_or(true)).collect::<Vec<_>>(),
             "key_ids": (12..20).map(|i| json!([i, pool.all()[i].id])).collect::<Vec<_>>(),
             "lengths": contents.iter().map(|c| c.len()).collect::<Vec<_>>(),
@@ -416,16 +459,19 @@ async fn main() {
                         let tname = tough::TargetName::new(nm.clone()).unwrap();
                         if !listed.contains_key(&tname) { downloads.push(json!("unlisted")); continue; }
                         let res = tname.resolved().to_string();
-                        let dest_rel = if cs { format!("{}.{}", hex::encode(sha256(&contents[ti])), res) } else { res.clone() };
+                        // the content this name was given last (what the owner publishes)
+                        let alt = top_state.get(&ti) == Some(&Some(true));
+                        let (src, content) = if alt { (alt_input.join(nm), &alt_contents[ti]) } else { (input.join(nm), &contents[ti]) };
+                        let dest_rel = if cs { format!("{}.{}", hex::encode(sha256(content)), res) } else { res.clone() };
                         let dest = tdir.join(&dest_rel);
                         std::fs::create_dir_all(dest.parent().unwrap()).unwrap();
-                        if link { let _ = std::os::unix::fs::symlink(input.join(nm), &dest); } else { let _ = std::fs::copy(input.join(nm), &dest); }
+                        if link { let _ = std::os::unix::fs::symlink(&src, &dest); } else { let _ = std::fs::copy(&src, &dest); }
                         let got = match repo.read_target(&tname).await {
                             Ok(Some(s)) => {
                                 use futures::StreamExt;
                                 let mut s = s; let mut buf = Vec::new(); let mut bad = false;
                                 while let Some(it) = s.next().await { match it { Ok(b) => buf.extend_from_slice(&b), Err(_) => { bad = true; break; } } }
-                                if bad { "error" } else if buf == contents[ti] { "identical" } else { "different" }
+                                if bad { "error" } else if &buf == content { "identical" } else { "different" }
                             }
                             Ok(None) => "notfound",
                             Err(_) => "error",
